@@ -7,7 +7,7 @@ Definition oc_of (code : Z) (chunks : list bytes) : outcome :=
   if code =? 0 then Missing else if code =? 1 then RefusedEarly else if code =? 2 then CreateFails
   else if code =? 3 then RefusedAfterCreate else if code =? 4 then StreamFails chunks
   else if code =? 5 then CloseFails chunks else if code =? 6 then RenameFails chunks
-  else if code =? 7 then ChmodFails chunks else Succeeds chunks.
+  else if code =? 7 then ChmodFails chunks else if code =? 9 then WrapCloseFails chunks else Succeeds chunks.
 
 Definition entry_of (e : bytes * bytes * Z * Z * list bytes) : entry :=
   let '(f, tmp, m, code, chunks) := e in (f, tmp, Z.to_N m, oc_of code chunks).
@@ -50,15 +50,16 @@ Definition chk (c : Z * list (bytes * bytes * Z * Z * list bytes) * list (bytes 
    5 chmod p mode | 6 unlink p *)
 Definition tev := (Z * bytes * bytes * Z)%type.
 
-Definition erase (o : op) : tev :=
+Definition erase (o : op) : list tev :=
   match o with
-  | OStat f => (0, f, [], 0)
-  | OCreate t => (1, t, [], Z.of_N temp_mode)
-  | OAppend t ch => (2, t, [], Z.of_nat (List.length ch))
-  | OClose t => (3, t, [], 0)
-  | ORename t f => (4, t, f, 0)
-  | OChmod f m => (5, f, [], Z.of_N m)
-  | ORemove t => (6, t, [], 0)
+  | OStat f => [(0, f, [], 0)]
+  | OCreate t => [(1, t, [], Z.of_N temp_mode)]
+  | OAppend t ch => [(2, t, [], Z.of_nat (List.length ch))]
+  | OWrapClose _ => []                       (* the wrapper's Close() is seen only through its writes *)
+  | OClose t => [(3, t, [], 0)]
+  | ORename t f => [(4, t, f, 0)]
+  | OChmod f m => [(5, f, [], Z.of_N m)]
+  | ORemove t => [(6, t, [], 0)]
   end.
 
 Definition tev_eqb (a b : tev) : bool :=
@@ -81,4 +82,4 @@ Definition entry_of_lens (e : bytes * bytes * Z * Z * list Z) : entry :=
 (* case = (kind (1 = returned, 0 = killed), plan with chunk lengths, projected trace) *)
 Definition chk_trace (c : Z * list (bytes * bytes * Z * Z * list Z) * list tev) : bool :=
   let '(kind, plan0, tr) := c in
-  tevs_match (kind =? 1) tr (map erase (all_ops (map entry_of_lens plan0))).
+  tevs_match (kind =? 1) tr (flat_map erase (all_ops (map entry_of_lens plan0))).
